@@ -411,7 +411,7 @@ func realMain() int {
 			ur.Writes = feasibleWrites(x, finals)
 			// a declared frame (verif:modifies) is an obligation of the function,
 			// not only an assumption of its callers
-			if u.con.Modifies != nil && !u.con.Trusted && u.con.Target != nil {
+			if u.con.Modifies != nil && !u.con.Trusted && (u.con.Target != nil || len(u.con.Impls) > 0) {
 				decl := map[string]bool{}
 				for _, m := range u.con.Modifies {
 					decl[m] = true
@@ -419,7 +419,13 @@ func realMain() int {
 				if !decl["*"] {
 					var outside []string
 					for _, k := range ur.Writes {
-						if !decl[k] {
+						ok := decl[k]
+						for d := range decl {
+							if strings.HasSuffix(d, ".") && strings.HasPrefix(k, d) {
+								ok = true
+							}
+						}
+						if !ok {
 							outside = append(outside, k)
 						}
 					}
@@ -647,6 +653,9 @@ func feasibleWrites(x *Run, finals []*State) []string {
 	byKey := map[string][]int{}
 	for i, f := range cand {
 		for k := range f.dirty {
+			if strings.HasPrefix(k, "RangeVisited.") {
+				continue // ghost state of range statements, not a heap location
+			}
 			byKey[k] = append(byKey[k], i)
 		}
 	}
